@@ -254,6 +254,6 @@ def classified(ctx, creqs, ckeep):
 def main(ctx):
     if ctx.replay:
         print(open(ctx.replay).read()[:4000]); return
-    core.proof_leg(ctx, ["Mappy.Props.C01", "Mappy.Props.C01Attr", "Mappy.Props.C01Class", "Mappy.Props.C04Doc"])
+    core.proof_leg(ctx, ["Mappy.Props.C01", "Mappy.Props.C01Attr", "Mappy.Props.C01Class", "Mappy.Props.C04Doc", "Mappy.Props.C04Rel"])
     explore(ctx)
     core.finish(ctx, LEVEL_NOTE, RULE, search=lambda c: explore(c, scale=2.0))
